@@ -1083,6 +1083,13 @@ pub const POLY_LIB: &[(&str, &str, &str)] = &[
     ("poly_ring2", "fn poly_ring2($1, $2, $3) { case $1 { 0 -> #($2, []) _ -> poly_ring3($1 - 1, $2, $3) } }", "fn(Int, a, b) -> #(a, List(b))"),
     ("poly_ring3", "fn poly_ring3($1, $2, $3) { let $2 = #($2, []) poly_ring1($1, $2.0, $3) }", "fn(Int, a, b) -> #(a, List(b))"),
     ("poly_ok", "fn poly_ok($1, $2) { case True { True -> Ok($1) False -> Error($2) } }", "fn(a, b) -> Result(a, b)"),
+    // a type variable that first appears in an annotation *after* un-annotated parameters is a variable of its own
+    ("poly_later", "fn poly_later($1, $2) -> fn(a) -> Int { let _ = $1 let _ = $2 fn(_) { 1 } }", "fn(a, b) -> fn(c) -> Int"),
+    // `use` with the call's own arguments labelled and written in another order than declared
+    // (the labelled definition itself is not judged: empty signature)
+    ("poly_fold", "fn poly_fold(over $1: List(a), from $2: b, with $3: fn(b, a) -> b) -> b { let _ = $1 let _ = $3 $2 }", ""),
+    ("poly_sum", "fn poly_sum() { use $1, $2 <- poly_fold(from: 0, over: [1.5]) let _ = $2 $1 }", "fn() -> Int"),
+    ("poly_sum2", "fn poly_sum2() { use $1, $2 <- poly_fold(over: [\"s\"], from: 0.5) let _ = $1 $2 }", "fn() -> String"),
 ];
 
 /// Instantiate a helper's binder names: ordinary names, or (one time in three each) the
@@ -1325,7 +1332,9 @@ pub fn generate(r: &mut Rng) -> TypedWorkspace {
             text.push('\n');
             text.push_str(&src);
             text.push('\n');
-            poly.push(PolyExpectation { module: mi, name: name.to_string(), sig: sig.to_string() });
+            if !sig.is_empty() {
+                poly.push(PolyExpectation { module: mi, name: name.to_string(), sig: sig.to_string() });
+            }
         }
         // `value.` probes for the custom types this module defines (module 0: base types too)
         let mut probe_types: Vec<Ty> = Vec::new();
